@@ -94,7 +94,14 @@ func c13Gen(t *rapid.T) interface{} {
 	if lib.IntN(t, 0, 3, "twin") == 0 {
 		c.Twin = []int{lib.IntN(t, 0, nv-1, "twinOf"), lib.IntN(t, 0, 400, "twinPos")}
 		// a long value: one changed letter in more than 200 bytes keeps the two texts more than 99.5 % alike
-		v := lib.Ints(t, 50, 70, 0, len(c.Vocab)-1, "twinValueTokens")
+		lo, hi := 50, 70
+		switch lib.IntN(t, 0, 19, "twinScale") {
+		case 17, 18: // more than 1000 bytes: the two texts are more than 99.9 % alike
+			lo, hi = 300, 700
+		case 19: // more than 10000 bytes: more than 99.99 % alike (a "tolerance" in a confidence comparison shows here)
+			lo, hi = 3500, 6000
+		}
+		v := lib.Ints(t, lo, hi, 0, len(c.Vocab)-1, "twinValueTokens")
 		pos := lib.IntN(t, 0, len(v), "twinUniquePos")
 		c.Values[c.Twin[0]] = append(v[:pos:pos], append([]int{-1}, v[pos:]...)...)
 	}
@@ -182,7 +189,7 @@ func c13Check(ci interface{}) lib.Outcome {
 				hasUnique = true
 			}
 		}
-		if !hasUnique || len(c.Values[i]) > 200 {
+		if !hasUnique || len(c.Values[i]) > 8000 {
 			return lib.Outcome{Skip: "malformed"}
 		}
 		values[i] = c13ValueText(c, i)
